@@ -302,11 +302,15 @@ def describe(case):
 
 
 def run(ctx):
-    plans = []
+    S2, S3 = "MaxStages = 2", "MaxStages = 3"
     if ctx.quick:
-        plans.append(("s2a1", {}, None))
+        plans = [("s2a1", {}, None, 200),
+                 ("sim-s3a3", {S2: S3, "MaxAcc = 1": "MaxAcc = 3", "Lite = TRUE": "Lite = FALSE"}, (dict(num=12), 9), 200)]
     else:
-        plans.append(("s2a1", {}, None))
+        plans = [("s2a2", {"MaxAcc = 1": "MaxAcc = 2"}, None, 5000),
+                 ("s3a1", {S2: S3}, None, 5000),
+                 ("s2a1-full", {"Lite = TRUE": "Lite = FALSE"}, None, 5000),
+                 ("sim-s3a4", {S2: S3, "MaxAcc = 1": "MaxAcc = 4", "Lite = TRUE": "Lite = FALSE"}, (dict(num=1500), 10), 5000)]
     counts = [0]; total = 0; seen = set()
     # a bare `except:` around a `yield` (LazyDense._enc_all, rows.py 57-61) swallows GeneratorExit when an iteration is abandoned on a
     # '?' cell: CPython reports "generator ignored GeneratorExit" through the unraisable hook.  Counted, not judged (no value changes).
@@ -314,30 +318,46 @@ def run(ctx):
     unraisable = [0]
     def hook(u): unraisable[0] += 1
     old_hook = sys.unraisablehook; sys.unraisablehook = hook
-    for name, sub, sim in plans:
+    for name, sub, sim, least in plans:
         cfg = tracecheck._cfg("LazyRows.cfg", sub, ctx.scratch, "lr_%s.cfg" % name)
         if sim: r = tlc.run("MC_LazyRows", cfg, ctx.scratch, workers=16, simulate=sim[0], depth=sim[1], seed=ctx.seed, timeout=3000, heap="16g")
         else: r = tlc.run("MC_LazyRows", cfg, ctx.scratch, workers=16, timeout=3000, heap="24g")
         ctx.add_tlc("LazyRows_" + name, r)
         for v in r.violations:
             ctx.violation("spec:%s" % (v["name"] or v["kind"]), "LazyRows.tla itself violates %s" % v["name"], v["trace"][:60])
-        cases = [j for j in r.json if isinstance(j, dict) and "stack" in j and "full" in j]
-        if len(cases) < 200: raise RuntimeError("LazyRows %s produced only %d behaviours" % (name, len(cases)))
+        stacks = {}; hists = {}
+        for j in r.json:
+            if not isinstance(j, dict): continue
+            if j.get("k") == "stack": stacks[json.dumps([j["base"]["name"], j["stack"]], sort_keys=True)] = j
+            elif j.get("k") == "hist":
+                hists[json.dumps([j["base"], j["stack"], [h["acc"] for h in j["hist"]]], sort_keys=True)] = j
+        r.json = None; r.out = None
+        if len(hists) < least: raise RuntimeError("LazyRows %s produced only %d behaviours" % (name, len(hists)))
         if not sim: ctx.exhaustive = True if ctx.exhaustive is None else ctx.exhaustive
         else: ctx.exhaustive = False
-        keyed = sorted(((json.dumps([c["base"]["name"], c["stack"], [h["acc"] for h in c["hist"]]], sort_keys=True), c) for c in cases), key=lambda kc: kc[0])
-        for key, c in keyed:
+        keys = sorted(hists)
+        orphans = 0
+        for key in keys:
             if key in seen: continue
-            seen.add(key); total += 1
+            seen.add(key)
+            h = hists[key]
+            st = stacks.get(json.dumps([h["base"], h["stack"]], sort_keys=True))
+            if st is None: orphans += 1; continue
+            c = dict(st, hist=h["hist"])
+            total += 1
             ctx.case(key)
             for sig, what in replay(ctx, c, counts):
                 ctx.violation(sig, "%s: %s" % (describe(c), what), dict(base=c["base"], stack=c["stack"], hist=c["hist"]))
-        if keyed: ctx.sample(dict(behaviour=describe(keyed[len(keyed) // 2][1]), history=keyed[len(keyed) // 2][1]["hist"]), limit=3)
+        if orphans and not sim: raise RuntimeError("LazyRows %s: %d histories without their pipeline record" % (name, orphans))
+        if keys:
+            h = hists[keys[len(keys) // 2]]
+            ctx.sample(dict(base=h["base"], filters=[stage_name(s) for s in h["stack"]], history=h["hist"]), limit=4)
+        ctx.extra.setdefault("pipelines", {})[name] = len(stacks)
     sys.unraisablehook = old_hook
     ctx.traces += total
+    ctx.extra["accesses_compared"] = counts[0]
     ctx.extra["unraisable_generator_exit_reports"] = unraisable[0]
     if unraisable[0]: ctx.notes.append("%d abandoned iterations of a lazy dense ARFF row made CPython report 'generator ignored GeneratorExit' (bare except around yield in LazyDense._enc_all); no returned value is affected" % unraisable[0])
-    ctx.extra["accesses_compared"] = counts[0]
     ctx.assumptions += [
         "headers name every column exactly once; EncodeRows sequences have one encoder per column; encoders do not raise on the values they meet",
         "LabelRows is the last filter of a pipeline; EncodeCatRows is the first filter and runs on materialised (list / dict) rows whose categorical keys are present in every row",
